@@ -78,6 +78,38 @@ type v111 struct {
 	mixD
 }
 
+// Two more Go kinds a user-supplied value type may have (both carry every optional method): a map type used by value and a
+// struct with a slice field used by value. Neither is comparable, so the library must not use them as map keys, and
+// neither is a pointer, so it must not ask whether they are nil.
+type mapCustom map[string]*lv
+
+func (m mapCustom) Set(s string) error { return m["l"].Set(s) }
+func (m mapCustom) String() string     { return m["l"].String() }
+func (m mapCustom) IsBoolFlag() bool   { return m["l"].isBool }
+func (m mapCustom) IsDefault() bool    { return len(m["l"].vals) == 0 }
+func (m mapCustom) Clear()             { mixC{m["l"]}.Clear() }
+
+type sliceStructCustom struct {
+	l   *lv
+	pad []int
+}
+
+func (v sliceStructCustom) Set(s string) error { return v.l.Set(s) }
+func (v sliceStructCustom) String() string     { return v.l.String() }
+func (v sliceStructCustom) IsBoolFlag() bool   { return v.l.isBool }
+func (v sliceStructCustom) IsDefault() bool    { return len(v.l.vals) == 0 }
+func (v sliceStructCustom) Clear()             { mixC{v.l}.Clear() }
+
+func mkCustomKind(l *lv, ct CType) flag.Value {
+	switch ct.Kind {
+	case 1:
+		return mapCustom{"l": l}
+	case 2:
+		return sliceStructCustom{l: l, pad: []int{1}}
+	}
+	return mkCustom(l, ct.HasBool, ct.HasClear, ct.HasDefault)
+}
+
 func mkCustom(l *lv, hasB, hasC, hasD bool) flag.Value {
 	switch {
 	case hasB && hasC && hasD:
@@ -106,6 +138,9 @@ type CType struct {
 	HasDefault bool     `json:"has_isdefault"`
 	FailOn     string   `json:"fail_on,omitempty"`
 	Env        []string `json:"env,omitempty"` // values of the listed environment variables ("" = unset)
+	// Kind: 0 = struct of pointers (capabilities as flagged above); 1 = map type by value, 2 = struct with a slice
+	// field by value (both have all three optional methods)
+	Kind int `json:"kind,omitempty"`
 }
 
 // ProtoCase is the case type of C19.
@@ -215,7 +250,7 @@ func CheckC19(c *ProtoCase, st *Stats) *Violation {
 		app.ErrorHandling = flag.ContinueOnError
 		declare := func(name string, ct CType, isArg bool, declName string) {
 			l := &lv{name: name, log: &log, failOn: ct.FailOn, isBool: ct.BoolResult}
-			v := mkCustom(l, ct.HasBool, ct.HasClear, ct.HasDefault)
+			v := mkCustomKind(l, ct)
 			var envNames []string
 			for ei, ev := range ct.Env {
 				n := fmt.Sprintf("VERIF_P_%s_%d", name, ei)
